@@ -30,6 +30,7 @@ type FuncContract struct {
 	ModifiesAll    bool
 	Loops          map[int]*LoopContract
 	Arith          string
+	Theory         string // optional extra axioms (e.g. "strinj": cancellation of string concatenation, injectivity of decimal formatting)
 	NoSafety       bool
 	Role           string
 	Entry          bool
@@ -154,7 +155,7 @@ func pkgPathOf(root, file string) string {
 }
 
 var clauseKeywords = map[string]bool{
-	"props": true, "requires": true, "ensures": true, "modifies": true, "loop": true, "arith": true,
+	"props": true, "requires": true, "ensures": true, "modifies": true, "loop": true, "arith": true, "theory": true,
 	"nosafety": true, "role": true, "entry": true, "trusted": true, "witness": true, "lemma": true,
 	"exitlocks": true, "replay": true, "waitinv": true, "lockschange": true, "like": true, "noframe": true, "atcall": true, "invariant": true, "nocallpre": true, "assumeafter": true, "reachable": true, "emits": true,
 }
@@ -331,6 +332,8 @@ func (cs *Contracts) parseFile(root, file string) error {
 			}
 		case "arith":
 			cur.Arith = rest
+		case "theory":
+			cur.Theory = rest
 		case "nosafety":
 			cur.NoSafety = true
 		case "role":
